@@ -905,15 +905,15 @@ def run(chk, args):
         cases = [f["replay"]["case"] for f in rp.get("failures", []) if "case" in f.get("replay", {})]
         cases += [b["replay"]["case"] for b in rp.get("no_longer_checks", []) if "case" in b.get("replay", {})]
     else:
-        n_route = 1700 if quick else 30000
-        n_ner = 500 if quick else 8000
+        n_route = 1000 if quick else 30000
+        n_ner = 300 if quick else 8000
         cases = [gen_case(rng, malformed=(i % 25 == 24), dense=(i % 3 == 0), narrow=(i % 6 == 1))
                  for i in range(n_route)]
         # the hexagon-scan branch needs more than 3 * (1 + 3r(r+1)) route nodes: large fan-out
         for i in range(20 if quick else 300):
             cases.append(gen_case(rng, dims=rng.choice([(8, 8), (9, 8), (10, 10)])))
         cases += [gen_ner_case(rng) for _ in range(n_ner)]
-        cases += [gen_shared_case(rng) for _ in range(300 if quick else 4000)]
+        cases += [gen_shared_case(rng) for _ in range(200 if quick else 4000)]
         corpus = os.path.join(lib.VERIF, "corpus", "C03.json")
         if os.path.exists(corpus):
             cases = json.load(open(corpus)) + cases
@@ -934,7 +934,7 @@ def run(chk, args):
             judge(c, o, coq=False)
             if isinstance(o, dict) and not o["error"] and o["nets"][0].get("final", ["huge"])[0] in ("n", "flat"):
                 long_v.append((c, o))
-        hist = [gen_history(rng) for _ in range(250 if quick else 3000)]
+        hist = [gen_history(rng) for _ in range(150 if quick else 3000)]
         hchunks = [hist[i:i + 60] for i in range(0, len(hist), 60)]
         for part, outp in zip(hchunks, chk.impl_parallel("impl_c03.py", hchunks, timeout=3000)):
             for c, o in zip(part, outp):
@@ -949,14 +949,35 @@ def run(chk, args):
                     ck = dict(c, kind="valid", machine=mstate, fault="history-step-%d" % min(k, 3))
                     judge(ck, ok)
     _ph.append((_t.time(), 'long+histories impl'))
+    # the three Coq evaluations run in the background while the bulk streams are executed and judged (quick tier;
+    # in the thorough tier they start after the exhaustive stream, which still adds cases)
+    import concurrent.futures as _cf
+    evals = {}
+
+    def start_evals():
+        if not (chk.model_ok and built is not False):
+            return
+        ex = _cf.ThreadPoolExecutor(max_workers=3)
+        exprs = [coq_ner_expr(c, o) if i is None else coq_route_expr(c, o, i) for c, o, i in pending]
+        evals["cases"] = ex.submit(chk.coq_eval, HEADER, exprs, max(40, min(400, -(-len(exprs) // 10))), 3000)
+        if multi:
+            evals["multi"] = ex.submit(
+                chk.coq_eval, HEADER,
+                [coq_nets_expr(c, o) if k == "nets" else coq_hist_expr(c, o) for k, c, o in multi],
+                max(20, -(-len(multi) // 6)), 2400, "multi")
+        if long_v:
+            evals["long"] = ex.submit(chk.coq_eval, HEADER, [coq_check_tree_expr(c, o, 0) for c, o in long_v],
+                                      1, 1200, "long")
+    if quick:
+        start_evals()
     # a larger dense-fault stream judged by the independent oracle only (the repair step is where trees go wrong;
     # about one dense case in a thousand made the code as found attach a chip twice)
     if not args.replay:
-        n_dense = 8000 if quick else 150000
-        n_narrow = 5000 if quick else 60000
+        n_dense = 4000 if quick else 150000
+        n_narrow = 3000 if quick else 60000
         dense = ([gen_case(rng, dense=True) for _ in range(n_dense)] +
                  [gen_case(rng, narrow=True) for _ in range(n_narrow)] +
-                 [gen_shared_case(rng) for _ in range(4000 if quick else 60000)])
+                 [gen_shared_case(rng) for _ in range(2000 if quick else 60000)])
         dchunks = [dense[i:i + 700] for i in range(0, len(dense), 700)]
         for part, outp in zip(dchunks, chk.impl_parallel("impl_c03.py", dchunks, timeout=3000)):
             for c, o in zip(part, outp):
@@ -989,10 +1010,11 @@ def run(chk, args):
         chk.count("exhaustive-cases-run", n_ex[0])
     _ph.append((_t.time(), 'exhaustive'))
     # model + validators inside Coq
-    if chk.model_ok and built is not False:
-        exprs = [coq_ner_expr(c, o) if i is None else coq_route_expr(c, o, i) for c, o, i in pending]
+    if not quick:
+        start_evals()
+    if "cases" in evals:
         try:
-            vals = chk.coq_eval(HEADER, exprs, shard=max(40, min(400, -(-len(exprs) // 12))), timeout=3000)
+            vals = evals["cases"].result()
         except RuntimeError as e:
             chk.oblige("correspondence:model-evaluates", False, str(e))
             vals = None
@@ -1057,10 +1079,9 @@ def run(chk, args):
                            "tree equality (%d nets), check_tree accepted / agreed with the oracle on %d real outputs"
                            % (n_ner, n_fin, n_v), True)
     _ph.append((_t.time(), 'coq: per-net cases'))
-    if chk.model_ok and built is not False and multi:
+    if "multi" in evals:
         try:
-            vs = chk.coq_eval(HEADER, [coq_nets_expr(c, o) if k == "nets" else coq_hist_expr(c, o) for k, c, o in multi],
-                              shard=max(20, -(-len(multi) // 12)), timeout=2400, name="multi")
+            vs = evals["multi"].result()
             nbad = 0
             for (k, c, o), v in zip(multi, vs):
                 chk.traces_validated += 1
@@ -1082,10 +1103,9 @@ def run(chk, args):
         except RuntimeError as e:
             chk.oblige("correspondence:multi-model-evaluates", False, str(e))
     _ph.append((_t.time(), 'coq: route_nets/run_history'))
-    if chk.model_ok and built is not False and long_v:
+    if "long" in evals:
         try:
-            vs = chk.coq_eval(HEADER, [coq_check_tree_expr(c, o, 0) for c, o in long_v], shard=1, timeout=1200,
-                              name="long")
+            vs = evals["long"].result()
             bad = [c for (c, o), v in zip(long_v, vs) if v is not True]
             for c in bad[:2]:
                 chk.oblige("validators-agree", False, "check_tree (Coq) = false on a long route the oracle accepts: %dx%d"
@@ -1100,14 +1120,14 @@ def run(chk, args):
         "route(): random machines up to 7x7 (plus 8x8..10x10 for the hexagon-scan branch, up to 8x12 in the dense-fault "
         "stream) incl. 1xN and 2xN, torus / mesh / partly wrapped, dead chips, dead links in one or both directions, "
         "clustered faults, every third case dense faults (10-20 % of the directed links dead, 0-5 dead chips) plus a larger "
-        "dense-fault stream judged by the oracle only (8000 cases quick, 150000 thorough) and a narrow-machine stream "
+        "dense-fault stream judged by the oracle only (4000 cases quick, 150000 thorough) and a narrow-machine stream "
         "(1xN, 2xN, Nx1, Nx2, N <= 12, dead chips in the middle, mostly one-directional dead links, fan-out 3..12; "
-        "every sixth compared case plus 5000 / 60000 oracle-only); core_resource default or a custom key (with a "
+        "every sixth compared case plus 3000 / 60000 oracle-only); core_resource default or a custom key (with a "
         "decoy allocation under Cores); six long-route cases (3x2500, 2500x3, 2x1500 meshes with a dead link, 3x2400 torus; "
         "oracle only); object-reuse histories (one Machine, route(), in-place add/update/discard/clear of dead_links "
         "and add/discard of dead_chips, route() again; every call judged against the fault sets tracked by the "
         "harness); shared-net cases (2-8 nets per call drawing sources and sinks from a pool of 2-5 chips with 2-4 "
-        "vertices each, repeated and twin nets with identical endpoint chips, 0-4 dead links; 300 compared + 4000 "
+        "vertices each, repeated and twin nets with identical endpoint chips, 0-4 dead links; 200 compared + 2000 "
         "oracle-only); 1-3 nets, "
         "fan-out 0..2*chips, sinks on the source chip, duplicated sinks, core allocations / endpoint constraints / "
         "neither, radius in {0,1,2,3,20}, scripted random stream (random / all-zero / all-max / few values / edge "
